@@ -260,6 +260,11 @@ def check_rel(prop, tier, seed, n_quick, n_thorough, grammars=None, rule="", **k
     for rj in rejects:
         res.violation(signature(rj), rj["replay"])
     negative_control(prop, res, view=VIEW.get(prop, "all"))
+    # U2: every call sequence of a bounded length, enumerated by TLC (spec/MC_Script.tla), replayed on the engine
+    if prop in ("C12", "C18") or (prop == "C11" and tier != "quick"):
+        from . import u2
+        for rj in u2.run(prop, tier, seed, res, depth=3 if tier == "quick" else 5):
+            res.violation(dict(signature(rj), part="u2-tlc-generated-script"), rj["replay"])
     res.cov["rule"] = rule or ("episodes = random API-call walks recorded from the real engine over corpus grammars x "
                                "vocabularies (byte / synthetic multi-byte / BPE-like), validated event by event by TLC "
                                "against spec/EngineRel.tla; distinct = distinct recorded episodes with > 3 events")
